@@ -85,3 +85,22 @@ package entropy
 //@   ensures result1 == nil ==> evalid(result0) && ename(result0) == upper(entropyName)       #type-of-name-any-case
 //@   ensures result1 != nil ==> (forall t uint64 :: evalid(t) ==> ename(t) != upper(entropyName))       #rejects-only-unknown
 //@   modifies nothing
+
+//@ -- ------------------------------------------------------------------ decoder allocations (C03)
+//@ -- The chunk length is read from the (possibly forged) stream: the buffer allocated for it
+//@ -- must stay bounded by the length of the block being decoded.
+//@ func (*FPAQDecoder) Read
+//@   mode int
+//@   props C03
+//@   opt callees abstract
+//@   panics true                                                                  #panics-not-claimed
+//@   atalloc alloclen <= 3*len(block) + 1024                                      #allocation-bounded-by-the-block-length
+//@   atcall InputBitStream.ReadArray arg2 <= 8*len(this.buffer)                    #chunk-length-checked-against-the-buffer
+
+//@ func (*BinaryEntropyDecoder) Read
+//@   mode int
+//@   props C03
+//@   opt callees abstract
+//@   panics true                                                                  #panics-not-claimed
+//@   atalloc alloclen <= 2*len(block) + 128                                       #allocation-bounded-by-the-block-length
+//@   atcall InputBitStream.ReadArray arg2 <= 8*len(this.buffer)                    #chunk-length-checked-against-the-buffer
